@@ -39,6 +39,8 @@ def run(ctx: Ctx) -> None:
     shapes.rule_graph_build(ctx)
     shapes.rule_canon_compare(ctx)
     shapes.rule_node_order(ctx)
+    from ..rules import loops
+    loops.rule_view_stale(ctx, SRC)
     numeric.rule_gf2round(ctx, armed=[(SRC, "_graph_finder")],
                           advisory=[(SRC, "_phase_correction"), (LCE, "_solution_basis_finder"), (LCE, "_vec_solution_finder")])
     ctx.floor("flow.missing-return", 25)
@@ -75,6 +77,40 @@ def rule_table_convert(ctx: Ctx) -> None:
             ctx.fail("table.convert", m, v,
                      f"conversion table maps ('{a}', '{b}') to `{norm(v)}`; the converter for that pair is `self.{want}`",
                      construct=f"convert_representation: ({a},{b}) -> {name}", func="QuantumState.convert_representation")
+    # the new representation is always computed from the one currently held: self._rep_data = <table entry>(<current self._rep_data>)
+    env = {}
+    for n in ast.walk(fn):
+        if isinstance(n, ast.Assign) and len(n.targets) == 1 and isinstance(n.targets[0], ast.Name):
+            env.setdefault(n.targets[0].id, []).append(n.value)
+    tname = None
+    for n in ast.walk(fn):
+        if isinstance(n, ast.Assign) and n.value is table and isinstance(n.targets[0], ast.Name):
+            tname = n.targets[0].id
+
+    def _resolves(e, pred, depth=0):
+        if pred(e):
+            return True
+        if isinstance(e, ast.Name) and depth < 4:
+            vs = env.get(e.id, [])
+            return bool(vs) and all(_resolves(v, pred, depth + 1) for v in vs)
+        return False
+    sets = [n for n in ast.walk(fn) if isinstance(n, ast.Assign) and any(norm(t) == "self._rep_data" for t in n.targets)]
+    if not sets:
+        raise AnalysisError("convert_representation: no assignment of self._rep_data")
+    for a_ in sets:
+        v = a_.value
+        ok = (isinstance(v, ast.Call) and len(v.args) == 1
+              and _resolves(v.func, lambda e: isinstance(e, ast.Subscript) and isinstance(e.value, ast.Name) and e.value.id == tname
+                            and norm(e.slice).replace(" ", "") in ("(self._rep_type,rep_type)", "(self._rep_type,%s)" % "rep_type"))
+              and _resolves(v.args[0], lambda e: norm(e) in ("self._rep_data", "self.rep_data")))
+        if ok:
+            ctx.ok("table.convert", m, a_, what="new representation = table[(old type, new type)](current data)")
+        else:
+            ctx.fail("table.convert", m, a_,
+                     f"convert_representation sets the held representation to `{short(v, 70)}`, which is not the conversion-table entry for "
+                     f"(current type, requested type) applied to the data currently held: a representation obtained any other way (a remembered "
+                     f"earlier one, say) does not reflect gates applied to the state since", func="QuantumState.convert_representation",
+                     construct="convert_representation: new representation not computed from the current data")
     # each helper delegates to the same-named conversion function and feeds it the representation's data
     for a, b in itertools.permutations(REP, 2):
         q = f"QuantumState._{REP[a]}_to_{REP[b]}"
@@ -91,7 +127,18 @@ def rule_table_convert(ctx: Ctx) -> None:
                      construct=f"{q}: delegates to {sorted(names)}", func=q)
 
 
+def _diag_view(src: str) -> str:
+    a = "    final_z_diag = list(np.diag(final_z))\n    z_diag_pos = [i for i, d in enumerate(final_z_diag) if d != 0]\n"
+    b = "    state_graph = nx.from_numpy_array(final_z)\n"
+    if src.count(a) != 1 or src.count(b) != 1:
+        raise LookupError("knock-out anchor text missing")
+    src = src.replace(a, "    final_z_diag = np.diag(final_z)\n")
+    return src.replace(b, b + "    z_diag_pos = [i for i, d in enumerate(final_z_diag) if d != 0]\n")
+
+
 KNOCKOUTS = [
+    Knockout("convert-from-stale-copy", STATE, sub_once("            self._rep_data = conversion_func(tmp_data)", "            self._rep_data = conversion_func(self._initial_data)"), "table.convert", "not computed from the current data"),
+    Knockout("diag-view-read-late", SRC, _diag_view, "view.stale", "read after in-place modification"),
     Knockout("canon-compare", SRC, sub_once("    new_tab = canonical_form(run_circuit(tab1.copy(), gate_list))", "    new_tab = run_circuit(tab1.copy(), gate_list)"), "canon.compare", "new_tab"),
     Knockout("node-order-sorted", SRC, sub_once("    mapping = dict(zip(graph_data.nodes(), range(0, n_qubits)))", "    mapping = dict(zip(sorted(graph_data.nodes()), range(0, n_qubits)))"), "node.order", "_graph_to_density_pure"),
     Knockout("graph-build-zero-state", SRC, sub_once("    final_state = dmf.create_n_plus_state(n_qubits)", "    final_state = dmf.create_n_product_state(n_qubits, dmf.state_ketz0())"), "graph.build", "_graph_to_density_pure"),
